@@ -75,6 +75,7 @@ def run(ctx, cases_override=None):
     if os.environ.get("C14_SKIP_MC"):
         # self-test convenience only (mutant runs): stage A does not depend on /repo
         ctx.mc_stats.append({"module": "MC_AdtLayout", "cfg": "skipped", "states": 1, "transitions": 1, "actions": {}, "wall_s": 0})
+        ctx.notes.append("SELF-TEST RUN: stage A skipped (C14_SKIP_MC); states/transitions in this file are placeholders, not measurements")
     else:
         # the code after the round-1 fixes (deviations Pad8, MtxfAlways): strict invariants; ParseFail needs "MclqIncl"
         ctx.mc("MC_AdtLayout", timeout=600, allow_uncovered=("ParseFail",))
